@@ -10,7 +10,9 @@ harness/extract/facts_c15.go) that the model and the theorems rely on.
   * the two bypasses of checkMinQuotaValidate (model: `minCheck`, theorem clause `MinSum`);
   * the upward walk of checkParentQuotaInfo (model: `hitsUp`, fuel = len(quotaInfoMap)+1);
   * ValidAddQuota keeps an existing child set (model: `validAdd` has no filter on `kids`);
-  * reserved names (model: 0/1/2), parent defaulting, feature-gate defaults, lock before state.
+  * reserved names (model: 0/1/2), parent defaulting, feature-gate defaults, lock before state;
+  * informer glue: NewQuotaInformer registers the three handlers unfiltered, OnQuotaUpdate unbinds the old
+    namespaces before it binds the new ones, what the handlers write, lock before state (model: Model/C15Inf.lean).
 -/
 namespace KoordVerif.C15
 open KoordVerif.Generated
@@ -118,11 +120,17 @@ theorem tie_informer_unfiltered :
     `nsSetAll (nsDelAll m o.ns) q.ns q.name`), so a namespace kept across the update stays bound. -/
 theorem tie_onupdate_unbind_before_bind : C15.onUpdNsOps = [("del", "$p0"), ("set", "$p1")] := by decide
 
-/-- what the handlers write, in source order (model: info, child sets, namespace map), and the lock before state. -/
+/-- which fields the handlers write (any order: info, child sets, namespace map — model `onAdd` / `onUpdate` /
+    `onDelete` touch exactly these), how often the namespace map is written by OnQuotaUpdate (unbind + bind), and that no
+    handler calls a method of the topology (the handlers do not check anything). -/
+def writesExactly (ev : List (String × String)) (fields : List String) : Bool :=
+  (writes ev).all (fun f => fields.contains f) && fields.all (fun f => (writes ev).contains f)
+
 theorem tie_handler_writes :
-    writes C15.onAddEvents = ["quotaInfoMap", "quotaHierarchyInfo", "quotaHierarchyInfo", "quotaHierarchyInfo", "namespaceToQuotaMap"] ∧
-    writes C15.onUpdEvents = ["quotaInfoMap", "quotaHierarchyInfo", "quotaHierarchyInfo", "namespaceToQuotaMap", "namespaceToQuotaMap"] ∧
-    writes C15.onDelEvents = ["quotaHierarchyInfo", "quotaHierarchyInfo", "quotaInfoMap", "namespaceToQuotaMap"] ∧
+    writesExactly C15.onAddEvents ["quotaInfoMap", "quotaHierarchyInfo", "namespaceToQuotaMap"] = true ∧
+    writesExactly C15.onUpdEvents ["quotaInfoMap", "quotaHierarchyInfo", "namespaceToQuotaMap"] = true ∧
+    writesExactly C15.onDelEvents ["quotaInfoMap", "quotaHierarchyInfo", "namespaceToQuotaMap"] = true ∧
+    ((writes C15.onUpdEvents).filter (· == "namespaceToQuotaMap")).length = 2 ∧
     calls C15.onAddEvents = [] ∧ calls C15.onUpdEvents = [] ∧ calls C15.onDelEvents = [] := by decide
 
 theorem tie_handlers_lock_first :
